@@ -70,4 +70,158 @@ theorem generated_visibility {c : Ctx} {names : List (Option String)} (ok : CtxO
     {vals : List (Option Value)} (hinv : Inv c names k env vals) : visible names env = visibleSpec names vals :=
   visible_eq ok hinv
 
+/-! ### `let` does not change the result -/
+
+/-- forget which names a block capture saw -/
+def eraseVis : MEv → MEv
+  | .ev (.cap b k e i _) => .ev (.cap b k e i [])
+  | x => x
+
+/-- same outcome, same events up to the names the captures saw -/
+def SameUpToNames {α : Type} (m m' : M α) : Prop := m.res = m'.res ∧ m.trace.map eraseVis = m'.trace.map eraseVis
+
+theorem SameUpToNames.refl {α : Type} (m : M α) : SameUpToNames m m := ⟨rfl, rfl⟩
+
+theorem SameUpToNames.andThen {α β : Type} {m m' : M α} {f f' : α → M β} (h : SameUpToNames m m')
+    (hf : ∀ a, SameUpToNames (f a) (f' a)) : SameUpToNames (m.andThen f) (m'.andThen f') := by
+  obtain ⟨hr, ht⟩ := h
+  cases m with
+  | mk t r =>
+    cases m' with
+    | mk t' r' =>
+      simp only at hr ht
+      subst hr
+      cases r with
+      | ok a =>
+        obtain ⟨h1, h2⟩ := hf a
+        exact ⟨by simpa [M.andThen] using h1, by simp [M.andThen, ht, h2]⟩
+      | panic s => exact ⟨rfl, by simpa [M.andThen] using ht⟩
+      | stuck => exact ⟨rfl, by simpa [M.andThen] using ht⟩
+
+/-- user code that does not read the `let` names -/
+def NameBlind (σ : World) : Prop :=
+  (∀ b k e i vis, σ.capture b k e i vis = σ.capture b k e i []) ∧
+  (∀ b k prev caps vis, σ.chain b k prev caps vis = σ.chain b k prev caps [])
+
+theorem caps_branch_blind (c c' : SpecCfg) (hσ : c'.σ = c.σ) (hb : NameBlind c.σ) (k b : Nat) (vis vis' : List (String × Value))
+    (keys : List (Nat × Nat)) : SameUpToNames (specCapsBranch c k b vis keys) (specCapsBranch c' k b vis' keys) := by
+  induction keys with
+  | nil => exact SameUpToNames.refl _
+  | cons ei rest ih =>
+    obtain ⟨e, i⟩ := ei
+    simp only [specCapsBranch]
+    apply SameUpToNames.andThen
+    · exact ⟨rfl, by simp [M.tell, eraseVis]⟩
+    · intro _
+      apply SameUpToNames.andThen
+      · rw [hσ, hb.1 b k e i vis, hb.1 b k e i vis']
+        exact SameUpToNames.refl _
+      · intro v
+        exact SameUpToNames.andThen ih (fun _ => SameUpToNames.refl _)
+
+theorem caps_all_blind (c c' : SpecCfg) (hσ : c'.σ = c.σ) (hch : c'.chains = c.chains) (hb : NameBlind c.σ) (k : Nat)
+    (vis vis' : List (String × Value)) (bs : List Nat) :
+    SameUpToNames (specCapsAll c k vis bs) (specCapsAll c' k vis' bs) := by
+  induction bs with
+  | nil => exact SameUpToNames.refl _
+  | cons b bs ih =>
+    simp only [specCapsAll]
+    have hacts : c'.acts b k = c.acts b k := by simp [SpecCfg.acts, hch]
+    rw [hacts]
+    exact SameUpToNames.andThen (caps_branch_blind c c' hσ hb k b vis vis' _)
+      (fun _ => SameUpToNames.andThen ih (fun _ => SameUpToNames.refl _))
+
+theorem chains_blind (c c' : SpecCfg) (hσ : c'.σ = c.σ) (hch : c'.chains = c.chains) (hk : c'.kind = c.kind)
+    (hp : c'.parent = c.parent) (hb : NameBlind c.σ) (k : Nat) (vals : List (Option Value))
+    (vis vis' : List (String × Value)) (act : List Nat) (caps : List (List Value)) :
+    specChains c k vals vis act caps = specChains c' k vals vis' act caps := by
+  have hprev : ∀ b, specPrev c' vals b k = specPrev c vals b k := by
+    intro b; unfold specPrev SpecCfg.acts; rw [hch]
+  have hseq : ∀ bcs, specChainsSeq c k vals vis bcs = specChainsSeq c' k vals vis' bcs := by
+    intro bcs
+    induction bcs with
+    | nil => rfl
+    | cons bc bcs ih =>
+      obtain ⟨b, cs⟩ := bc
+      simp only [specChainsSeq, hσ, hprev, ih]
+      rw [hb.2 b k _ cs vis, hb.2 b k _ cs vis']
+  unfold specChains
+  rw [hk, hseq]
+  simp only [specChainsFork, hσ, hprev, hp]
+  have : ((act.zip caps).map fun (x : Nat × List Value) => (x.1, c.σ.chain x.1 k (specPrev c vals x.1 k) x.2 vis)) =
+      ((act.zip caps).map fun (x : Nat × List Value) => (x.1, c.σ.chain x.1 k (specPrev c vals x.1 k) x.2 vis')) := by
+    apply List.map_congr_left
+    intro x _
+    rw [hb.2 x.1 k _ x.2 vis, hb.2 x.1 k _ x.2 vis']
+  rw [this]
+
+/-- **`let` does not change the result.**  Two invocations that differ only in which branches carry a `let` name, run
+    against user code that does not read those names: same result, same events (up to the record of which names each
+    capture saw), from every step on. -/
+theorem loop_names_irrelevant (c c' : SpecCfg) (hσ : c'.σ = c.σ) (hch : c'.chains = c.chains) (hk : c'.kind = c.kind)
+    (hp : c'.parent = c.parent) (hb : NameBlind c.σ) (rem k : Nat) (vals : List (Option Value)) :
+    SameUpToNames (specLoop c rem k vals) (specLoop c' rem k vals) := by
+  induction rem generalizing k vals with
+  | zero =>
+    rw [specLoop, specLoop]
+    have hact : c'.active k = c.active k := by unfold SpecCfg.active SpecCfg.n SpecCfg.depth; rw [hch]
+    simp only [hact]
+    apply SameUpToNames.andThen (caps_all_blind c c' hσ hch hb k _ _ _)
+    intro caps
+    have := chains_blind c c' hσ hch hk hp hb k vals (visibleSpec c.names vals) (visibleSpec c'.names vals) (c.active k) caps
+    unfold specChains at this
+    rw [this]
+    simp only [hk]
+    exact SameUpToNames.refl _
+  | succ rem ih =>
+    rw [specLoop, specLoop]
+    have hact : c'.active k = c.active k := by unfold SpecCfg.active SpecCfg.n SpecCfg.depth; rw [hch]
+    simp only [hact]
+    apply SameUpToNames.andThen (caps_all_blind c c' hσ hch hb k _ _ _)
+    intro caps
+    have := chains_blind c c' hσ hch hk hp hb k vals (visibleSpec c.names vals) (visibleSpec c'.names vals) (c.active k) caps
+    unfold specChains at this
+    rw [this]
+    apply SameUpToNames.andThen (SameUpToNames.refl _)
+    intro news
+    simp only [hk]
+    split
+    · split
+      · exact SameUpToNames.refl _
+      · exact ih _ _
+    · exact ih _ _
+
+/-- the same for a whole invocation: `p'` is `p` with other (or no) `let` names -/
+theorem let_result_invariant (σ : World) (parent : Option String) (p p' : Input) (kind : Kind) (hb : NameBlind σ)
+    (hm : p'.branches.map (·.members) = p.branches.map (·.members)) (hh : p'.handler = p.handler) :
+    (specRun σ parent p kind).res = (specRun σ parent p' kind).res := by
+  have hch : p'.branches.map (fun b => splitSteps b.members) = p.branches.map (fun b => splitSteps b.members) := by
+    have := congrArg (List.map splitSteps) hm
+    simpa [List.map_map, Function.comp_def] using this
+  rw [specRun_eq, specRun_eq]
+  have hl := loop_names_irrelevant (cfgFor σ parent p kind) (cfgFor σ parent p' kind) rfl (by simp [cfgFor, hch]) rfl rfl hb
+    ((cfgFor σ parent p kind).maxDepth - 1) 0 (List.replicate (cfgFor σ parent p kind).n none)
+  have hmd : (cfgFor σ parent p' kind).maxDepth = (cfgFor σ parent p kind).maxDepth := by simp [cfgFor, SpecCfg.maxDepth, hch]
+  have hn : (cfgFor σ parent p' kind).n = (cfgFor σ parent p kind).n := by simp [cfgFor, SpecCfg.n, hch]
+  have hhd : handlerDefOf σ p' = handlerDefOf σ p := by simp [handlerDefOf, hh]
+  simp only [loopOf, hmd, hn, hhd, hh]
+  have h2 : SameUpToNames
+      ((handlerDefOf σ p).andThen fun _ =>
+        (specLoop (cfgFor σ parent p kind) ((cfgFor σ parent p kind).maxDepth - 1) 0
+          (List.replicate (cfgFor σ parent p kind).n none)).andThen fun f =>
+          specHandle (cfgFor σ parent p kind) (p.handler.map Prod.fst) f)
+      ((handlerDefOf σ p).andThen fun _ =>
+        (specLoop (cfgFor σ parent p' kind) ((cfgFor σ parent p kind).maxDepth - 1) 0
+          (List.replicate (cfgFor σ parent p kind).n none)).andThen fun f =>
+          specHandle (cfgFor σ parent p' kind) (p.handler.map Prod.fst) f) := by
+    apply SameUpToNames.andThen (SameUpToNames.refl _)
+    intro _
+    apply SameUpToNames.andThen hl
+    intro f
+    have : specHandle (cfgFor σ parent p' kind) (p.handler.map Prod.fst) f =
+        specHandle (cfgFor σ parent p kind) (p.handler.map Prod.fst) f := rfl
+    rw [this]
+    exact SameUpToNames.refl _
+  exact h2.1
+
 end JoinModel.Props.C12
